@@ -20,7 +20,7 @@ from pathlib import Path
 ROOT = Path(__file__).resolve().parents[2]
 CORPUS = ROOT / "harness" / "sut" / "corpus"
 CACHE = ROOT / ".cache" / "e2e"
-MODULES = ["c_numeric", "c_string", "c_container", "c_state", "c_enum", "c_float", "c_hashy"]
+MODULES = ["c_numeric", "c_string", "c_container", "c_state", "c_enum", "c_float", "c_hashy", "c_report"]
 
 
 def tree_hash() -> str:
